@@ -363,6 +363,9 @@ seed("C11", "motion-defaults-ignore-model", "motion defaults loaded for a fixed 
 seed("C11", "serial-getter-returns-fps", "CameraSerial getter returns another field", ["C11.H2"],
      (HI, "func (h *HeaderInfo) CameraSerial() int {\n\treturn h.serial", "func (h *HeaderInfo) CameraSerial() int {\n\treturn h.fps"))
 
+seed("C08", "cold-zero-skipped", "sub-threshold value 0 treated differently from other cold values", ["C08.N4"],
+     (MO, "\t\t\tva := a.Pix[y][x]\n\t\t\tif va < d.tempThresh {\n\t\t\t\tva = d.tempThresh\n\t\t\t}\n\t\t\tvb := b.Pix[y][x]\n\t\t\tif vb < d.tempThresh {\n\t\t\t\tvb = d.tempThresh\n\t\t\t}\n\t\t\tout.Pix[y][x] = absDiff(va, vb)", "\t\t\tva := a.Pix[y][x]\n\t\t\tif va == 0 {\n\t\t\t\tcontinue\n\t\t\t}\n\t\t\tif va < d.tempThresh {\n\t\t\t\tva = d.tempThresh\n\t\t\t}\n\t\t\tvb := b.Pix[y][x]\n\t\t\tif vb < d.tempThresh {\n\t\t\t\tvb = d.tempThresh\n\t\t\t}\n\t\t\tout.Pix[y][x] = absDiff(va, vb)"))
+
 here = os.path.dirname(os.path.abspath(__file__))
 for pid, name, d in S:
     os.makedirs(os.path.join(here, pid), exist_ok=True)
